@@ -177,6 +177,31 @@ func extractEvents(repo string, o *leanOut) {
 		{"ev_pool_rpc_releaseRequestState", "rpc", "", "releaseRequestState", []string{"reset", "Put"}},
 		{"ev_pool_rpc_serverChannelState_reset", "rpc", "*serverChannelState", "reset", []string{"@assign", "Reset", "Free"}},
 		{"ev_pool_rpc_releaseServerState", "rpc", "", "releaseServerState", []string{"reset", "Put"}},
+		{"ev_model_getPackage", "internal/lang/model", "*Context", "getPackage", []string{"Compiling", "compile", "Errorf"}},
+		{"ev_model_compileFiles", "internal/lang/model", "*Context", "compileFiles", []string{"@assign", "parsePackage", "resolve", "compile", "validate", "Errorf"}},
+		{"ev_model_parsePackage", "internal/lang/model", "", "parsePackage", []string{"Compiling", "parse"}},
+		{"ev_model_parseDefinitions", "internal/lang/model", "*Package", "parseDefinitions", []string{"Errorf", "@assign"}},
+		{"ev_model_file_resolve", "internal/lang/model", "*File", "resolve", []string{"Errorf", "resolve"}},
+		{"ev_model_parseImport", "internal/lang/model", "*File", "parseImport", []string{"Errorf", "newImport"}},
+		{"ev_model_newField", "internal/lang/model", "", "newField", []string{"Errorf", "newType"}},
+		{"ev_model_newFields", "internal/lang/model", "", "newFields", []string{"Errorf", "newField"}},
+		{"ev_model_field_resolved", "internal/lang/model", "*Field", "resolved", []string{"Errorf"}},
+		{"ev_model_parseEnum", "internal/lang/model", "", "parseEnum", []string{"Errorf", "parseValues"}},
+		{"ev_model_enum_parseValue", "internal/lang/model", "*Enum", "parseValue", []string{"Errorf"}},
+		{"ev_model_struct_validate", "internal/lang/model", "*Struct", "validate", []string{"Errorf", "validate", "contains"}},
+		{"ev_model_structField_validate", "internal/lang/model", "*StructField", "validate", []string{"Errorf", "builtin"}},
+		{"ev_model_structField_contains", "internal/lang/model", "*StructField", "contains", []string{"contains", "@assign"}},
+		{"ev_model_structField_compile", "internal/lang/model", "*StructField", "compile", []string{"Errorf"}},
+		{"ev_model_method_compile", "internal/lang/model", "*Method", "compile", []string{"compile"}},
+		{"ev_model_method_compileInput", "internal/lang/model", "*Method", "compileInput", []string{"Errorf", "generateMethodRequest", "compile"}},
+		{"ev_model_method_compileOutput", "internal/lang/model", "*Method", "compileOutput", []string{"Errorf", "generateMethodResponse", "compile"}},
+		{"ev_model_method_compileType", "internal/lang/model", "*Method", "compileType", []string{"Errorf"}},
+		{"ev_model_channel_compile", "internal/lang/model", "*MethodChannel", "compile", []string{"Errorf"}},
+		{"ev_model_type_resolve", "internal/lang/model", "*Type", "resolve", []string{"Errorf", "lookup", "_resolve", "@assign"}},
+		{"ev_model_generateMessageDef", "internal/lang/model", "", "generateMessageDef", []string{"Errorf", "add", "@assign"}},
+		{"ev_model_service_parseMethod", "internal/lang/model", "*Service", "parseMethod", []string{"Errorf", "parseMethod"}},
+		{"ev_gen_file", "internal/lang/generator", "*fileWriter", "file", []string{"linef", "importPackage"}},
+		{"ev_gen_importPackage", "internal/lang/generator", "", "importPackage", []string{"OptionNames"}},
 		{"ev_gen_typeWriteFunc", "internal/lang/generator", "", "typeWriteFunc", []string{"Sprintf"}},
 		{"ev_gen_typeDecodeFunc", "internal/lang/generator", "", "typeDecodeFunc", []string{"Sprintf"}},
 		{"ev_gen_typeName", "internal/lang/generator", "", "typeName", []string{"Sprintf"}},
